@@ -3,11 +3,9 @@ use pallas_codec::utils::{Bytes, KeepRaw, NonEmptySet, Nullable};
 use pallas_primitives::Hash;
 use pallas_validate::phase1::{alonzo, babbage, conway};
 
-fn addr<const N: usize>(ty: u8) -> Bytes {
+fn addr<const N: usize>(hdr: u8) -> Bytes {
     let mut a: [u8; N] = kani::any();
-    let net: u8 = kani::any();
-    kani::assume(net < 16);
-    a[0] = (ty << 4) | net;
+    a[0] = hdr;
     Bytes::from(a.to_vec())
 }
 
@@ -30,7 +28,7 @@ fn $name() {
 }
     };
 }
-p!(probe_net_t6, 29, 6);
-p!(probe_net_t0, 57, 0);
-p!(probe_net_t14, 29, 14);
-p!(probe_net_t6_short, 20, 6);
+p!(probe_net_t6_k1, 29, 0x61);
+p!(probe_net_t6_k5, 29, 0x65);
+p!(probe_net_t0_k0, 57, 0x00);
+p!(probe_net_t6_short, 20, 0x61);
